@@ -52,7 +52,7 @@ def run(ctx, res):
     nxt = prog.need("reader_iter_next", U)
     res.saw(nxt)
     res.floor("C02.R1", 8)
-    ev = APE.run(prog, cg, nxt, bound=1)
+    ev = APE.run(prog, cg, nxt, bound=APE.BOUND)
     seen_kinds = set()
     for p in ev.paths:
         tag = None
@@ -155,7 +155,7 @@ def run(ctx, res):
         res.check(ok4, "C02.R2", site(f, "callbacks"), "iterator uses reader_iter_seek/next/free", "callbacks are %s" % ([canon(a) for a in call_args(mi[0])[:3]] if mi else None))
     for cn in ("reader_iter", "reader_iter_init"):
         cf = prog.need(cn, U)
-        evc = APE.run(prog, cg, cf, bound=1)
+        evc = APE.run(prog, cg, cf, bound=APE.BOUND)
         for p in evc.paths:
             if p.end != "exit" or p.ret() == ("c", 0):
                 continue
@@ -167,7 +167,7 @@ def run(ctx, res):
                       cf.loc(cf.body), p.describe(cf))
     rii = prog.need("reader_iter_init", U)
     res.saw(rii)
-    evp = APE.run(prog, cg, rii, bound=1)
+    evp = APE.run(prog, cg, rii, bound=APE.BOUND)
     for p in evp.paths:
         if p.end != "exit" or p.ret() == ("c", 0):
             continue
@@ -181,7 +181,7 @@ def run(ctx, res):
     res.floor("C02.R3", 5)
     bc = prog.need("bytes_compare", "mtbl/reader.c")
     res.saw(bc)
-    evb = APE.run(prog, cg, bc, bound=1)
+    evb = APE.run(prog, cg, bc, bound=APE.BOUND)
     mc = bc.calls("memcmp")
     if len(mc) != 1:
         raise BrokenAnalysis("bytes_compare: expected one memcmp call")
@@ -253,7 +253,7 @@ def run(ctx, res):
     res.floor("C02.R5", 2)
     add = prog.need("mtbl_writer_add", "mtbl/writer.c")
     res.saw(add)
-    eva = APE.run(prog, cg, add, bound=1)
+    eva = APE.run(prog, cg, add, bound=APE.BOUND)
     for p in eva.paths:
         if p.end != "exit" or p.ret() != ("c", OKV):
             continue
